@@ -1,5 +1,5 @@
 NAME = 'S-setops'
-PROPERTIES = ['C01']
+PROPERTIES = ['C01', 'C08']
 ENGINE = 'verus'
 CLASS = 'U'
 DOC = ('apply_set_operation (select/set_operations.rs) and apply_distinct (select/helpers.rs) against SQL bag semantics, stated per key over the '
